@@ -28,8 +28,10 @@ FirstLine(p) == LET nl == {i \in 1..Len(p) : p[i] = NL} IN IF nl = {} THEN p ELS
 RcptParas(b) == SelectSeq(Paras(b), LAMBDA p : p[1] = LT)
 
 StartsWith(a, p) == Len(a) >= Len(p) /\ SubSeq(a, 1, Len(p)) = p
-\* spellings under which a failed recipient may be named: as delivered, or with the configured prefix "pfx-" removed
-Spellings(a, pfx) == {a} \cup (IF pfx # <<>> /\ StartsWith(a, pfx \o <<45>>) THEN {SubSeq(a, Len(pfx) + 2, Len(a))} ELSE {})
+\* the spelling under which a failed recipient must be named: as the sender wrote it, i.e. with the configured prefix "pfx-" removed
+\* (pfx is the prefix of the DOMAIN / dot-suffix / catch-all entry in force: it must be removed; an address that got a prefix
+\* from a user@domain entry does not start with pfx and is named as delivered - qmail-send does not look those entries up)
+Spellings(a, pfx) == IF pfx # <<>> /\ StartsWith(a, pfx \o <<45>>) THEN {SubSeq(a, Len(pfx) + 2, Len(a))} ELSE {a}
 Heading(a) == <<LT>> \o [i \in 1..Len(a) |-> IF a[i] = NL THEN USCORE ELSE a[i]] \o <<GT, COLON>>
 
 \* notice = bytes of the bounce message before the copy of the original; failed = set of recipient addresses (bytes)
